@@ -34,30 +34,21 @@ import (
 var vcfsLocatorRe = regexp.MustCompile(`^([0-9a-f]{32})\+([0-9]+)(\+[A-Z][-A-Za-z0-9@_]*)*$`)
 var vcfsFileTokRe = regexp.MustCompile(`^([0-9]+):([0-9]+):(.+)$`)
 
-// vcfsUnescape undoes \ooo escapes (and reports malformed ones).
+// vcfsUnescape undoes \ooo escapes; a backslash that is not followed by three octal digits is an
+// ordinary (printable ASCII) character of the name.
 func vcfsUnescape(s string) (string, bool) {
 	var out []byte
-	ok := true
 	for i := 0; i < len(s); i++ {
-		if s[i] != '\\' {
-			out = append(out, s[i])
-			continue
+		if s[i] == '\\' && i+4 <= len(s) {
+			if v, err := strconv.ParseUint(s[i+1:i+4], 8, 8); err == nil {
+				out = append(out, byte(v))
+				i += 3
+				continue
+			}
 		}
-		if i+4 > len(s) {
-			ok = false
-			out = append(out, s[i])
-			continue
-		}
-		v, err := strconv.ParseUint(s[i+1:i+4], 8, 8)
-		if err != nil {
-			ok = false
-			out = append(out, s[i])
-			continue
-		}
-		out = append(out, byte(v))
-		i += 3
+		out = append(out, s[i])
 	}
-	return string(out), ok
+	return string(out), true
 }
 
 // vcfsGrammarText: utf-8 text without control codes or whitespace other than the delimiters.
@@ -200,12 +191,16 @@ func (r *vcfsRun) save(kind string) bool {
 			r.api.mu.Unlock()
 			err = r.fs.Sync()
 			r.api.mu.Lock()
-			if err == nil && len(r.api.saved) > n {
+			updated := len(r.api.saved) > n
+			if err == nil && updated {
 				txt = r.api.saved[len(r.api.saved)-1]
-			} else if err == nil {
-				err = fmt.Errorf("verif: Sync returned nil without saving")
 			}
 			r.api.mu.Unlock()
+			if err == nil && !updated {
+				// Sync saw nothing to update (or passed the text in a way the fake API does not
+				// see): the state it saved is what MarshalManifest returns now
+				txt, err = r.fs.MarshalManifest(".")
+			}
 		default:
 			txt, err = r.fs.MarshalManifest(".")
 		}
@@ -393,6 +388,32 @@ func vcfsRunStore(scn vcfsScenario, failK int) (events []vcfsEvent, nputs int) {
 	if !r.dead {
 		doSave()
 	}
+	if r.hung {
+		// Some call never returned.  The statement has no termination clause as such, but it does
+		// say that after failed block writes "a later save can still succeed": if writes failed
+		// before, try a save with a Keep that no longer fails; if that one does not return either
+		// (watchdog as for every call: deadline AND its goroutine parked for minutes) the hang
+		// event names the save, and checks/C09.py lets the contract judge exactly that case.
+		nf := 0
+		r.keep.mu.Lock()
+		for _, p := range r.keep.puts {
+			if !p.OK {
+				nf++
+			}
+		}
+		r.keep.mu.Unlock()
+		hungSave := false
+		for _, ev := range r.events {
+			if ev["ev"] == "hang" && ev["op"] == "save" {
+				hungSave = true
+			}
+		}
+		if nf > 0 && !hungSave {
+			failing = false
+			r.dead, r.hung = false, false
+			r.save("marshal")
+		}
+	}
 	r.keep.mu.Lock()
 	nputs = len(r.keep.puts)
 	r.keep.mu.Unlock()
@@ -527,7 +548,19 @@ func TestVerifC09(t *testing.T) {
 	defer func(bs int) { maxBlockSize = bs }(maxBlockSize)
 	tw := vNewTraceWriter(os.Getenv("VERIF_TRACES"))
 	ntr := 0
+	hangs := 0
+	countHangs := func(evs []vcfsEvent) {
+		for _, ev := range evs {
+			if ev["ev"] == "hang" {
+				hangs++
+				return
+			}
+		}
+	}
 	for _, s := range scns {
+		if hangs >= 2 {
+			break // every further scenario could cost the watchdog deadline again
+		}
 		fmt.Fprintf(os.Stderr, "VERIF-SCN %d\n", s.ID)
 		if s.Mode == "flushdir" {
 			for _, ev := range vcfsRunFlushDir(*s) {
@@ -559,6 +592,7 @@ func TestVerifC09(t *testing.T) {
 				sk := *s
 				sk.Fail = "kth"
 				evs, _ := vcfsRunStore(sk, k)
+				countHangs(evs)
 				for _, ev := range evs {
 					tw.Write(ev)
 				}
@@ -567,6 +601,7 @@ func TestVerifC09(t *testing.T) {
 			continue
 		}
 		evs, _ := vcfsRunStore(*s, s.FailK)
+		countHangs(evs)
 		for _, ev := range evs {
 			tw.Write(ev)
 		}
